@@ -493,10 +493,17 @@ func resolveAll(v ssa.Value, throughPhi bool) []ssa.Value {
 			if x.Op == token.MUL {
 				// load: through a local cell to what was stored
 				base := x.X
-				if fv, ok := base.(*ssa.FreeVar); ok {
-					if b := freeVarBinding(fv); b != nil {
-						base = b
+				// (a cell captured through several nested closures is bound free variable to free variable)
+				for i := 0; i < 8; i++ {
+					fv, ok := base.(*ssa.FreeVar)
+					if !ok {
+						break
 					}
+					b := freeVarBinding(fv)
+					if b == nil {
+						break
+					}
+					base = b
 				}
 				if a, ok := base.(*ssa.Alloc); ok && cellIsSimple(a) {
 					sts := stores(a)
